@@ -60,17 +60,21 @@ def _aes_variants(p):
     from sharepoint2text.parsing.extractors.pdf._pypdf_aes_fallback import patch_pypdf_fallback_aes
     from pypdf import PdfReader, PdfWriter
     import secrets
-    secrets.token_bytes = lambda n: bytes((i * 37 + 11) % 256 for i in range(n))  # deterministic IVs / salts
+    salt = [0]
+    secrets.token_bytes = lambda n: bytes((i * 37 + 11 + salt[0]) % 256 for i in range(n))  # deterministic IVs / salts / file keys
     os.urandom = secrets.token_bytes
     patch_pypdf_fallback_aes()
     out = {}
-    for alg in ("AES-128", "AES-256"):
-        r = PdfReader(io.BytesIO(p["data"]))
+    for alg, src in (("AES-128", "data"), ("AES-256", "data"), ("AES-256b", "data2")):
+        if not p.get(src):
+            continue
+        salt[0] += 53  # another file key per document
+        r = PdfReader(io.BytesIO(p[src]))
         w = PdfWriter()
         for pg in r.pages:
             w.add_page(pg)
         w._ID = None
-        w.encrypt(user_password="", owner_password="owner", algorithm=alg)
+        w.encrypt(user_password="", owner_password="owner" + alg, algorithm=alg.rstrip("b"))
         b = io.BytesIO()
         w.write(b)
         out[alg] = K.b64e(b.getvalue())
@@ -111,10 +115,12 @@ def warm():
     docs.update(_variants(docs))
     src = docs.get("fx/pdf/two_tables_horizontal.pdf")
     if src:
-        for _t, _p, rec in K.run_forked([("aes", {"data": src})], _aes_variants, run_timeout=120):
+        for _t, _p, rec in K.run_forked([("aes", {"data": src, "data2": docs.get("fx/pdf/large_table_1.pdf")})], _aes_variants, run_timeout=180):
             if "_harness" not in rec:
                 docs["var/aes128-emptypw.pdf"] = K.b64d(rec["AES-128"])
                 docs["var/aes256-emptypw.pdf"] = K.b64d(rec["AES-256"])
+                if rec.get("AES-256b"):
+                    docs["var/aes256b-emptypw.pdf"] = K.b64d(rec["AES-256b"])
     _docs = docs
     _pdfs = sorted(n for n in docs if n.endswith(".pdf"))
     others = ["fx/modern_ms/headings.docx", "fx/modern_ms/mwe.xlsx", "fx/mails/basic_email.eml", "fx/archives/test_archive.7z",
@@ -145,10 +151,12 @@ def warm():
     for m in mods:
         if m.__name__.endswith("_pypdf_aes_fallback"):
             # pure-Python AES: millions of calls per document; only its patch function is a pre-emption region
-            f = getattr(m, "patch_pypdf_fallback_aes", None)
-            if f is not None:
-                _call_codes.append(f.__code__)
-                _line_codes.append(f.__code__)
+            for fname in ("patch_pypdf_fallback_aes", "_expand_key", "_get_round_keys", "aes_cbc_decrypt", "aes_cbc_encrypt", "aes_ecb_decrypt", "aes_ecb_encrypt"):
+                f = getattr(m, fname, None)
+                if f is not None and hasattr(f, "__code__"):
+                    _call_codes.append(f.__code__)
+                    if fname in ("patch_pypdf_fallback_aes", "_expand_key", "_get_round_keys"):
+                        _line_codes.append(f.__code__)  # key schedule and its cache: line-level pre-emption
             continue
         for co in S.code_objects_of(m):
             if id(co) not in seen:
@@ -184,6 +192,11 @@ def gen_case(rng: random.Random, tier: str) -> dict:
         if r < 0.06:
             return rng.choice([n for n in _pdfs if n.startswith("var/aes")] or plain)
         return rng.choice(plain) if r < 0.72 else rng.choice(_pool)
+    aes256 = [n for n in _pdfs if n.startswith("var/aes256")]
+    if mode == "threads" and len(aes256) >= 2 and rng.random() < 0.08:
+        # two threads decrypting with different keys (shared key-schedule cache)
+        return {"mode": "threads", "tasks": [[aes256[0]], [aes256[1]]] if rng.random() < 0.5 else [[aes256[1]], [aes256[0]]], "sched_seed": rng.randrange(1 << 40),
+                "p_call": rng.choice([1 / 5, 1 / 20, 1 / 100]), "p_line": rng.choice([1 / 2, 1 / 8, 1 / 40]), "line_granularity": False, "inject": None, "schedule": None}
     if mode == "section_enum":
         # systematic: k tasks, no random pre-emption; context switches exactly at chosen line events inside the patch section
         k = rng.choice([2, 2, 3])
